@@ -258,7 +258,7 @@ func Sanitize(s string) string {
 }
 
 func ResOf(p *spg.Password, err error, pan interface{}) GenRes {
-	g := GenRes{Toks: []TokJ{}, Str: []int{}, Ent: DyadicOf(0)}
+	g := GenRes{Toks: []TokJ{}, Str: []int{}, Ent: DyadicOf(0), Atoms: CPLists{}, Seps: CPLists{}}
 	switch {
 	case pan != nil:
 		g.Kind = "panic"
